@@ -46,10 +46,10 @@ PY = isolate.PY
 DEFAULTS = {"x86": "SPR", "aarch64": "V2"}
 CLASSES = [
     "corpus", "mix", "unknown", "zero", "heavy10", "heavy100", "len99", "len100", "len101", "len150",
-    "len_marked", "len_lines", "noarch", "corpus_noarch", "corpus_lines", "mix_marked", "allunknown",
+    "len_marked", "len_lines", "len_noarch", "noarch", "corpus_noarch", "corpus_lines", "mix_marked", "allunknown",
 ]
 
-LEN_CLASSES = ["len99", "len100", "len101", "len150", "len_marked", "len_lines"]
+LEN_CLASSES = ["len99", "len100", "len101", "len150", "len_marked", "len_lines", "len_noarch"]
 BASE_CLASSES = [c for c in CLASSES if c not in LEN_CLASSES]
 
 HEAVY = {
@@ -264,6 +264,9 @@ def make_case(cls, isa, arch, r, pools):
                 lines.append(".Lf%d:" % k)
             else:
                 lines.append(indep_line(isa, r, k))
+        if cls == "len_noarch":
+            # both notes of the report header are due at once: no --arch (a default is assumed) and a long unmarked file
+            case["arch"] = None
         if cls == "len_marked":
             lines = mark(isa, lines, r)
             case["marked"] = True
@@ -827,12 +830,12 @@ def run_shard(spec, R):
         if spec["tier"] == "quick":
             # the >=100-line files take the multi-process LCD path (16 forks each): two of the six per shard
             k = spec["shard"]
-            order = BASE_CLASSES + [LEN_CLASSES[(2 * k) % 6], LEN_CLASSES[(2 * k + 1) % 6]]
+            order = BASE_CLASSES + [LEN_CLASSES[(2 * k) % len(LEN_CLASSES)], LEN_CLASSES[(2 * k + 1) % len(LEN_CLASSES)]]
             order += [r.choice(BASE_CLASSES) for _ in range(max(0, spec["runs"] - len(order)))]
         else:
             order, j = [], spec["shard"]
             while len(order) < spec["runs"]:
-                order += BASE_CLASSES + [LEN_CLASSES[(2 * j) % 6], LEN_CLASSES[(2 * j + 1) % 6]]
+                order += BASE_CLASSES + [LEN_CLASSES[(2 * j) % len(LEN_CLASSES)], LEN_CLASSES[(2 * j + 1) % len(LEN_CLASSES)]]
                 j += 1
             order = order[: spec["runs"]]
         for i, cls in enumerate(order):
